@@ -15,6 +15,11 @@ cherab):
   total_stark_coarse        quadrature of add_lorentzian_line loses accuracy (continuously: 3e-5 at FWHM/4, 4e-4 at 1-2 FWHM,
                             7 % at 16-40 FWHM, factors beyond); violations there carry the separate mechanism key
                             StarkBroadenedLine:lorentzian-bin-quadrature-unresolved (known finding, fix proposed)
+  integrator_diff /       : StarkBroadenedLine with a user-supplied GaussianQuadrature whose settings were reached by a random
+  bins_stark_user /         history of property assignments (min_order / max_order up and down, relative_tolerance) interleaved
+  total_user                with integrations: (a) the mutated integrator integrates five test functions to the same value
+                            (4 ulp) as a freshly constructed one with the same final settings; (b) the spectrum is judged with
+                            the same closed-form oracle and a tolerance derived from the final relative_tolerance
   pol_sum                 : pi + sigma = unpolarised, bin by bin (three calls on identical inputs)
   zero_width              : width-less line => a pre-filled spectrum is returned bit-identical
   adds                    : on a pre-filled spectrum the increment equals what is added to a zero spectrum
@@ -52,7 +57,9 @@ ASSUMPTIONS = [
     "modified-Lorentzian parts are accepted between the documented truncated profile and the un-truncated one, within "
     "2e-4 relative (20x the documented quadrature tolerance 1e-5); Stark grids with bins wider than FWHM/10 are judged "
     "with the same tolerance but under the separate key of the known quadrature finding",
-    "StarkBroadenedLine is driven with its default integrator GaussianQuadrature() only",
+    "StarkBroadenedLine is driven with its default integrator and with user-supplied GaussianQuadrature objects (random "
+    "setter histories, final relative_tolerance 1e-9..1e-3, final max_order >= 4, grids with >= 10 bins per FWHM); other "
+    "Integrator1D subclasses are not driven",
     "Zeeman structures with an empty or all-zero polarisation list, MSE calls with n_e <= 0 or T_e <= 0 and Stark "
     "parameters within 1e-6 relative of a fit-branch switching point are outside the statement (counted as skipped)",
 ]
@@ -63,7 +70,7 @@ THOROUGH = dict(cases=600000, workers=16, timecap=600)
 REQUIRED = {"bins_gauss": 20000, "bins_stark": 5000, "total": 1500, "pol_sum": 10000, "zero_width": 60, "adds": 200,
             "judged:GaussianLine": 30, "judged:MultipletLineShape": 30, "judged:ZeemanTriplet": 30,
             "judged:ParametrisedZeemanTriplet": 30, "judged:ZeemanMultiplet": 30, "judged:StarkBroadenedLine": 60,
-            "judged:BeamEmissionMultiplet": 30}
+            "judged:BeamEmissionMultiplet": 30, "integrator_diff": 300, "bins_stark_user": 5000, "total_user": 60}
 
 MODELS = ["GaussianLine", "MultipletLineShape", "ZeemanTriplet", "ParametrisedZeemanTriplet", "ZeemanMultiplet",
           "StarkBroadenedLine", "BeamEmissionMultiplet"]
@@ -362,7 +369,55 @@ def gen_case(rng, tier):
                            sigma_to_pi=spec(-1, 1, flat), s1_to_s0=spec(-1, 0.5, flat), pi2_to_pi3=spec(-1, 0.5, flat),
                            pi4_to_pi3=spec(-1, 0.5, flat))
     _place_window(case, rng, tier)
+    # drawn last, so that all cases without a user integrator are the cases generated before this class existed
+    if model == "StarkBroadenedLine" and rng.random() < 0.35:
+        case["integrator"] = _gen_integrator(rng)
+        if case["window"]["cls"] not in ("resolved_inside", "resolved_straddle"):
+            _place_window(case, rng, tier, force="resolved_inside" if rng.random() < 0.7 else "resolved_straddle")
     return case
+
+
+N_TEST_FUNCTIONS = 5
+
+
+def _test_function(kind):
+    """Smooth (and one Stark-like) integrands for the integrator histories and the differential monitor."""
+    return [lambda x: math.exp(-x * x), lambda x: 1.0 / (1.0 + x * x), lambda x: math.sin(3.0 * x) + 2.0,
+            lambda x: x ** 7 - 2.0 * x ** 3 + 1.0, lambda x: 1.0 / (1.0 + abs(x) ** 2.5)][kind]
+
+
+def _gen_integrator(rng):
+    """A GaussianQuadrature whose final settings are reached by property assignments after construction."""
+    mn = int(rng.integers(1, 7))
+    mx = int(rng.integers(max(mn, 4), 61))
+    rt = float(10 ** rng.uniform(-8, -3))
+    init = dict(relative_tolerance=rt, min_order=mn, max_order=mx)
+    ops = []
+
+    def interval():
+        a = float(rng.uniform(-2, 1))
+        return [a, a + float(rng.uniform(0.1, 3))]
+    for _ in range(int(rng.integers(1, 7))):
+        u = rng.random()
+        if u < 0.3:
+            mn = int(rng.integers(1, mx + 1))
+            ops.append(["min_order", mn])
+        elif u < 0.6:
+            mx = int(rng.integers(mn, 65))
+            ops.append(["max_order", mx])
+        elif u < 0.75:
+            rt = float(10 ** rng.uniform(-9, -4))
+            ops.append(["relative_tolerance", rt])
+        else:
+            ops.append(["integrate", int(rng.integers(N_TEST_FUNCTIONS))] + interval())
+    if mx < 4:                      # the tolerance model of the spectrum comparison needs a final max_order >= 4
+        mx = int(rng.integers(6, 51))
+        ops.append(["max_order", mx])
+    if rng.random() < 0.4:          # tight final tolerance in part of the cases: a 1e-3 quadrature error must be visible
+        rt = float(10 ** rng.uniform(-9, -7))
+        ops.append(["relative_tolerance", rt])
+    probes = [[k] + interval() for k in range(N_TEST_FUNCTIONS)]
+    return dict(init=init, ops=ops, final=dict(relative_tolerance=rt, min_order=mn, max_order=mx), probes=probes)
 
 
 def _nominal_components(case):
@@ -389,7 +444,7 @@ def _nominal_components(case):
     return comps
 
 
-def _place_window(case, rng, tier):
+def _place_window(case, rng, tier, force=None):
     comps = _nominal_components(case)
     has_l = any(k[0] == "L" for k in comps)
     cen = np.array([k[1] for k in comps])
@@ -404,6 +459,8 @@ def _place_window(case, rng, tier):
         classes = ["inside", "straddle_lo", "straddle_hi", "outside", "near_outside", "single_bin", "wide", "fine"]
         p = [0.30, 0.12, 0.12, 0.07, 0.06, 0.14, 0.08, 0.11]
     wc = classes[int(rng.choice(len(classes), p=np.array(p) / sum(p)))]
+    if force and has_l:
+        wc = force
     bins = int(round(10 ** rng.uniform(0, math.log10(512))))
     k = int(rng.integers(len(comps)))
     ck = float(cen[k])
@@ -448,7 +505,8 @@ def _place_window(case, rng, tier):
     elif wc == "resolved_inside":
         fw = W * R.SIGMA2FWHM
         delta = fw * 10 ** rng.uniform(-2, math.log10(RESOLVED) - 0.02)
-        bins = int(min(4096 if tier == "thorough" else 1024, max(8, math.ceil((cmax - cmin + fw * rng.uniform(2, 30)) / delta))))
+        bins = int(min(512 if force else (4096 if tier == "thorough" else 1024),
+                       max(8, math.ceil((cmax - cmin + fw * rng.uniform(2, 30)) / delta))))
         mid = 0.5 * (cmin + cmax) + rng.uniform(-0.3, 0.3) * fw
         lo = mid - 0.5 * bins * delta
         hi = lo + bins * delta
@@ -547,7 +605,98 @@ def _vprofile3d(vec, case):
     return f
 
 
-def build(case, polarisation):
+def make_integrator(spec, upto=None, skip=()):
+    """The real GaussianQuadrature after the case's history of property assignments (ops[i] for i in skip left out)."""
+    from cherab.core.math.integrators import GaussianQuadrature
+    q = GaussianQuadrature(**spec["init"])
+    for i, op in enumerate(spec["ops"] if upto is None else spec["ops"][:upto]):
+        if i in skip:
+            continue
+        if op[0] == "integrate":
+            q.integrand = _test_function(op[1])
+            q(op[2], op[3])
+        else:
+            setattr(q, op[0], op[1])
+    return q
+
+
+def fresh_integrator(settings):
+    from cherab.core.math.integrators import GaussianQuadrature
+    return GaussianQuadrature(**settings)
+
+
+def _final_settings(spec, skip=()):
+    st = dict(spec["init"])
+    for i, op in enumerate(spec["ops"]):
+        if i not in skip and op[0] != "integrate":
+            st[op[0]] = op[1]
+    return st
+
+
+def _probe(q, probes):
+    out = []
+    for k, a, b in probes:
+        q.integrand = _test_function(k)
+        out.append(q(a, b))
+    return np.array(out)
+
+
+def _history_label(spec):
+    """Mechanism label of a history-dependence: greedily drop operations while the mutated integrator still differs
+    from a fresh one with the same final settings; name the setters that remain, with their direction."""
+    skip = set()
+
+    def differs(sk):
+        try:
+            a = _probe(make_integrator(spec, skip=sk), spec["probes"])
+            b = _probe(fresh_integrator(_final_settings(spec, sk)), spec["probes"])
+        except ValueError:          # dropping an operation made a later assignment invalid (min_order > max_order)
+            return False
+        return bool(np.any(np.abs(a - b) > 4 * EPS * np.abs(b)))
+    for i in range(len(spec["ops"])):
+        if differs(skip | {i}):
+            skip.add(i)
+    st = dict(spec["init"])
+    names = []
+    for i, op in enumerate(spec["ops"]):
+        if op[0] == "integrate":
+            if i not in skip:
+                names.append("integrate")
+            continue
+        if i not in skip:
+            d = "up" if op[1] > st[op[0]] else ("down" if op[1] < st[op[0]] else "same")
+            names.append("%s-%s" % (op[0], d))
+        if i not in skip:
+            st[op[0]] = op[1]
+    return "+".join(sorted(set(names))) or "construction"
+
+
+def check_integrator(case, ctx):
+    """Differential monitor: the mutated integrator = a freshly constructed one with the same final settings."""
+    spec = case["integrator"]
+    q = make_integrator(spec)
+    ctx.cls("stark:user-integrator")
+    final = spec["final"]
+    ok = (q.min_order == final["min_order"] and q.max_order == final["max_order"]
+          and q.relative_tolerance == final["relative_tolerance"])
+    ctx.check(ok, "integrator:settings-not-stored:GaussianQuadrature",
+              "GaussianQuadrature properties do not read back the assigned values", monitor="integrator_diff",
+              got=[q.min_order, q.max_order, q.relative_tolerance], want=final)
+    got = _probe(q, spec["probes"])
+    want = _probe(fresh_integrator(final), spec["probes"])
+    bad = np.abs(got - want) > 4 * EPS * np.abs(want)
+    ctx.mon("integrator_diff", int(got.size))
+    if bad.any():
+        i = int(np.argmax(np.abs(got - want) / (np.abs(want) + 1e-300)))
+        ctx.viol("integrator:history-dependent:GaussianQuadrature:" + _history_label(spec),
+                 "a GaussianQuadrature whose settings were reached by property assignments integrates a smooth function "
+                 "to a different value than a freshly constructed one with the same settings",
+                 function=int(spec["probes"][i][0]), interval=spec["probes"][i][1:], got=float(got[i]), want=float(want[i]),
+                 rel=float(abs(got[i] - want[i]) / (abs(want[i]) + 1e-300)), final=final)
+    return q
+
+
+def build(case, polarisation, integrator=None):
     """Real cherab objects for one case; returns (callable(spectrum) -> spectrum, element atomic weight, beam weight)."""
     from raysect.core import Point3D, Vector3D
     from cherab.core import Plasma, Species, Maxwellian, Line, AtomicData, Beam
@@ -610,7 +759,10 @@ def build(case, polarisation):
         obj = M.ZeemanMultiplet(line, lam0, species, plasma, ad,
                                 ZeemanStructure(lst(zs["pi"]), lst(zs["sigma_plus"]), lst(zs["sigma_minus"])), polarisation)
     elif model == "StarkBroadenedLine":
-        obj = M.StarkBroadenedLine(line, lam0, species, plasma, ad, tuple(case["stark"]), polarisation=polarisation)
+        if integrator is not None:
+            obj = M.StarkBroadenedLine(line, lam0, species, plasma, ad, tuple(case["stark"]), integrator, polarisation)
+        else:
+            obj = M.StarkBroadenedLine(line, lam0, species, plasma, ad, tuple(case["stark"]), polarisation=polarisation)
     else:
         raise ValueError("unknown model %r" % model)
     rad = case["radiance"]
@@ -676,11 +828,12 @@ def run_case(case, ctx):
     family = model in ZEEMAN_FAMILY
     pols = ["pi", "sigma", "no"] if family else ["no"]
 
+    integ = check_integrator(case, ctx) if case.get("integrator") else None
     got = {}
     aw = bw = None
     delta = None
     for pol in pols:
-        call, aw, bw = build(case, pol)
+        call, aw, bw = build(case, pol, integ)
         s = Spectrum(win["min"], win["max"], win["bins"])
         s = call(s)
         got[pol] = np.array(s.samples, dtype=float)
@@ -701,7 +854,7 @@ def run_case(case, ctx):
             ok = ctx.check(not np.any(got[pol] != 0.0), "%s:zero-width-adds:%s" % (model, pol),
                            "a width-less line added non-zero samples to an empty spectrum", monitor="zero_width",
                            max_added=float(np.max(np.abs(got[pol]))))
-            call, _, _ = build(case, pol)
+            call, _, _ = build(case, pol, integ)
             s = Spectrum(win["min"], win["max"], win["bins"])
             s.samples[:] = base
             s = call(s)
@@ -768,15 +921,30 @@ def run_case(case, ctx):
                         "(band: Lorentzian truncated at +-50 FWHM ... un-truncated, 2e-4 relative)") if resolved else \
                     ("bin width exceeds FWHM/10 and the default GaussianQuadrature does not resolve the modified "
                      "Lorentzian: samples leave the [truncated, un-truncated] band by more than 2e-4")
-                tol = tol_bin + LOR_RTOL * lf + 1e-13 * rad / delta
-                _band_check(ctx, got[pol], g + lt, g + lf, tol, key, what, "bins_stark" if resolved else "bins_stark_coarse", **detail)
+                lor_rtol = LOR_RTOL
+                mon_b, mon_t = ("bins_stark", "total") if resolved else ("bins_stark_coarse", "total_stark_coarse")
+                keyt = "%s:window-total:%s%s" % (model, pol, tag) if resolved else key
+                if integ is not None and resolved:
+                    # user-supplied integrator: tolerance from its *final* settings.  On grids with >= 10 bins per FWHM
+                    # the stopping rule |I_n - I_(n-1)| < rtol |I_n| leaves an error < 50 rtol (algebraic convergence in
+                    # the bin holding the |x|^2.5 cusp), and a quadrature that runs into max_order without converging is
+                    # still accurate to 9e-8 (order 4-5) / 5e-9 (order >= 6) there (measured at fixed order, 400 grids each)
+                    fin = case["integrator"]["final"]
+                    lor_rtol = 50.0 * fin["relative_tolerance"] + (1e-6 if fin["max_order"] < 6 else 1e-7)
+                    key = "%s:user-integrator:bin-profile:%s%s" % (model, pol, tag)
+                    keyt = "%s:user-integrator:window-total:%s%s" % (model, pol, tag)
+                    what = ("with a user-supplied GaussianQuadrature (settings assigned after construction) the samples differ "
+                            "from radiance x bin-average of the documented profile by more than the integrator's tolerance")
+                    mon_b, mon_t = "bins_stark_user", "total_user"
+                    detail = dict(detail, integrator_final=fin, lor_rtol=lor_rtol)
+                tol = tol_bin + lor_rtol * lf + 1e-13 * rad / delta
+                _band_check(ctx, got[pol], g + lt, g + lf, tol, key, what, mon_b, **detail)
                 lo_t = rad * (P["frac_gauss"] + P["frac_lor_trunc"])
                 hi_t = rad * (P["frac_gauss"] + P["frac_lor_full"])
-                ttol = tol_tot + LOR_RTOL * rad * P["frac_lor_full"]
-                keyt = "%s:window-total:%s%s" % (model, pol, tag) if resolved else key
+                ttol = tol_tot + lor_rtol * rad * P["frac_lor_full"]
                 _band_check(ctx, float(got[pol].sum() * delta), lo_t, hi_t, ttol, keyt,
                             "sum(samples) x delta differs from radiance x fraction of the profile inside the window",
-                            "total" if resolved else "total_stark_coarse", fraction=float(frac), **detail)
+                            mon_t, fraction=float(frac), **detail)
             else:
                 ctx.close(got[pol], g, "%s:bin-profile:%s%s" % (model, pol, tag),
                           "samples differ from radiance x bin-average of the documented profile",
@@ -802,7 +970,7 @@ def run_case(case, ctx):
         scale = float(np.max(np.abs(got[pol]))) or (rad / delta)
         base = rs.uniform(0, 2, size=win["bins"]) * scale
         base[rs.random(win["bins"]) < 0.2] = 0.0
-        call, _, _ = build(case, pol)
+        call, _, _ = build(case, pol, integ)
         s = Spectrum(win["min"], win["max"], win["bins"])
         s.samples[:] = base
         s = call(s)
